@@ -8,10 +8,19 @@ ops: {"k":"add","g":g,"p":[…],"start":b} {"k":"remove","gs":[…]} {"k":"conca
 The model state (`Engine.State`) and the abstract map of the specification (`Engine.absStep`) are run
 side by side; every query answers with the model's value and the specification's value.
 `T`/`floor` = null means: the translated constants of the current /repo source.
+
+A second request kind drives the index layout of `NonBondEngine.from_topology` (`Model/EngineLayout.lean`):
+  {"op":"layout","L":[x,y,z],"ignore":[names],"mols":[{"name":s,"nodes":[{"key":k,"resname":s,
+   "template":s|null,"pos":null|"nonfinite"|[x,y,z]},…]},…]}
+answer: "status" ("ok" | "reject" = IOError | "fail" = another exception: no residue at all), "tree" (would the
+constructor's KD-tree accept the rows), the model's `n`, `map` ([[mol, key, gndx]] = the dict after all
+assignments), `atypes`, `rows`, and the specification `spec` = the entries (nodes of the non-ignored
+molecules with the index of their molecule in `molecules`) numbered 0, 1, ….
 -/
 import PolyplyVerif.Driver.Common
 import PolyplyVerif.Generated.EngineTables
 import PolyplyVerif.Model.Engine
+import PolyplyVerif.Model.EngineLayout
 open Lean PolyplyVerif PolyplyVerif.Geometry PolyplyVerif.Engine
 
 namespace PolyplyVerif.Driver.C16
@@ -154,10 +163,60 @@ def handleRun (j : Json) : Except String Json := do
     | _ => throw s!"unknown engine op {k}"
   pure (Driver.okJson [("out", Json.arr out), ("pre", Json.bool pre)])
 
+/-! ### the index layout of `from_topology` -/
+
+def posAttrOfJson (j : Json) : Except String EngineLayout.PosAttr :=
+  match j with
+  | Json.null => pure .absent
+  | Json.str _ => pure .nonFinite
+  | _ => (v3OfJson j).map .given
+
+def nodeOfJson (j : Json) : Except String EngineLayout.Node := do
+  let key ← (← j.getObjVal? "key").getNat?
+  let resname ← (← j.getObjVal? "resname").getStr?
+  let template ← match optField j "template" with
+    | some t => (t.getStr?).map some
+    | none => pure none
+  let pos ← match j.getObjVal? "pos" with
+    | .ok v => posAttrOfJson v
+    | .error _ => pure .absent
+  pure { key := key, resname := resname, template := template, pos := pos }
+
+def molOfJson (j : Json) : Except String EngineLayout.Mol := do
+  let name ← (← j.getObjVal? "name").getStr?
+  let nodes ← (← (← j.getObjVal? "nodes").getArr?).toList.mapM nodeOfJson
+  pure { name := name, nodes := nodes }
+
+def handleLayout (j : Json) : Except String Json := do
+  let L ← v3OfJson (← j.getObjVal? "L")
+  let ignore ← (← (← j.getObjVal? "ignore").getArr?).toList.mapM (·.getStr?)
+  let mols ← (← (← j.getObjVal? "mols").getArr?).toList.mapM molOfJson
+  let ents := EngineLayout.entries ignore mols
+  let spec := Json.arr ((ents.zipIdx).map (fun (e, g) =>
+    Json.mkObj [("mol", toJson e.1), ("key", toJson e.2.key), ("gndx", toJson g),
+                ("atype", Json.str e.2.atype), ("row", optV3ToJson e.2.row)])).toArray
+  let bad := ents.any fun e => !e.2.posOk L
+  match EngineLayout.fromTopology L ignore mols with
+  | .error e =>
+    pure (Driver.okJson [("status", Json.str (match e with | .reject => "reject" | .fail => "fail")),
+                         ("spec", spec), ("spec_reject", Json.bool bad)])
+  | .ok lay =>
+    let keys := (lay.map.map (·.1)).eraseDups
+    let d := EngineLayout.dictOf lay.map
+    let items := keys.filterMap fun k => (d k).map fun g => Json.arr #[toJson k.1, toJson k.2, toJson g]
+    pure (Driver.okJson [("status", Json.str "ok"),
+      ("tree", Json.bool (EngineLayout.treeAccepts L lay)),
+      ("n", toJson lay.nAtoms),
+      ("map", Json.arr items.toArray),
+      ("atypes", toJson lay.atypes),
+      ("rows", Json.arr ((List.range lay.nAtoms).map (fun g => optV3ToJson (lay.pos g))).toArray),
+      ("spec", spec), ("spec_reject", Json.bool bad)])
+
 def handle (j : Json) : Except String Json := do
   let op ← (← j.getObjVal? "op").getStr?
   match op with
   | "run" => handleRun j
+  | "layout" => handleLayout j
   | _ => throw s!"unknown op {op}"
 
 end PolyplyVerif.Driver.C16
